@@ -66,6 +66,10 @@ CHECKS['C17'] = ('E4', 'model_checking',
     'A real WebSocketCodec (server and client role, also with initial data handed to the constructor) under a real parent component is fed read events; reference = an independent strict RFC 6455 encoder/decoder in the check (self-tested against the RFC examples). Enumerated exhaustively: payload lengths {0,1,125,126,127,65535,65536,70000} text/binary x four masking keys x every single cut in the first 16 bytes and around the payload end, every pair of cuts in the header region, fixed-size chunkings, byte-at-a-time; every split of a message into 1-3 continuation frames incl. inside a UTF-8 character, with ping/pong (0,5,125 bytes) before/between/after fragments; every sequence of 1-3 items from data messages, fragmented messages, ping, pong, close, local write, local close; outgoing writes of every length decoded by the reference. Judged: type, payload and order of every message, one pong per ping with the same payload, nothing delivered or sent after close, no exception events.',
     'Trusted: the reference codec; peers are role-conforming; closing-handshake details (reply close frame, its masking) are observed, not judged.',
     'bounded-exhaustive input/segmentation enumeration against an independent reference codec', 'DESIGN.md 6/C17')
+CHECKS['C18'] = ('E4', 'model_checking',
+    'Line protocol: every byte stream of <=5 (quick) / <=6 (thorough) tokens over {a, e-acute (2 bytes), CR, LF, CRLF} x every composition into reads (all 2^(n-1) for short streams, all with <=2/3 cuts plus byte-at-a-time for longer ones), in client mode and in server mode with two sockets and every interleaving of their segment sequences; after every read the emitted line events must equal a byte-scanning reference applied to the bytes of that socket so far, the tail is held and never crosses sockets. IRC: Message(cmd, *args, prefix) and all 17 command constructors applied to every argument tuple (arity <=4) over {x, empty, space, x y, :x, x:y, CR, a CR b, LF, a LF b, NUL, e-acute}, commands and prefixes from the same alphabet, str and bytes; each call must raise the module Error/ValueError or serialise to exactly one CRLF-terminated line without other CR/LF that parsemsg/from_string parse back to the same prefix, command and arguments; plus the full pipeline constructor -> IRC component -> wire -> second IRC component under every single cut.',
+    'Trusted: reference line splitter and the round-trip oracle; whitespace other than space inside non-trailing arguments is outside the alphabet.',
+    'bounded-exhaustive input/segmentation enumeration against a reference model and a round-trip oracle', 'DESIGN.md 6/C18')
 NOT_YET = {}
 def main():
     props = [json.loads(l) for l in open(os.path.join(HERE, 'properties.jsonl'))]
